@@ -346,7 +346,8 @@ static void init_var_value(int c, int v)
                 break;
         case CAT_VAR_BUF_STRING:
                 /* contents that need every escape when formatted: letter, LF, quote, backslash (as far as the size allows) */
-                { static const uint8_t pat[4] = {'p', '\n', '"', '\\'}; for (int i = 0; i + 1 < wv->size && i < 4; i++) tmp[i] = (i == 0) ? (uint8_t)('p' + v) : pat[i]; }
+                { static const uint8_t pat[4] = {'p', '\n', '"', '\\'}; for (int i = 0; i + 1 < wv->size && i < 4; i++) tmp[i] = (i == 0) ? (uint8_t)('p' + v) : pat[i];
+                  if (W.str_full) for (int i = 0; i < wv->size; i++) if (!tmp[i]) tmp[i] = (uint8_t)('a' + i % 26); }
                 break;
         }
         if (wv->access == CAT_VAR_ACCESS_WRITE_ONLY && W.wo_fill) {
@@ -420,6 +421,7 @@ void world_init(void)
         gen_init(&I.S->gen);
         I.S->trig_left = (uint8_t)W.trig_budget;
         I.S->flag_left = (uint8_t)W.flag_budget;
+        I.S->reinit_left = (uint8_t)(W.act_reinit ? (W.reinit_budget > 0 ? W.reinit_budget : 1) : 0);
         mon_init();
         I.out_n = 0; I.raw_n = 0; I.out_mark = 0;
         I.depth = 0;
@@ -460,6 +462,7 @@ static void lock_required(const char *what)
                 VIOL(P_C16, "C16: %s callback invoked with lock depth %d (must be exactly 1)", what, I.depth);
 }
 
+int w_force_refuse;     /* refusal-run probe: every io attempt is refused, no choice is consumed */
 int w_noread_value;     /* value io_read returns for "no byte" when refuse_read does not say otherwise */
 
 /* Values by which the environment says "no": io callbacks (cat.h: only 1 means done) and mutex / variable callbacks
@@ -482,6 +485,7 @@ static int io_read(char *ch)
         L.reads_attempted++;
         /* refuse_read: 1 = "no byte" is signalled by 0; 2 = by -1; 3 = by 2 (cat.h: only 1 means a byte was read); sweeps take the value from CAT_SWEEP_NOREAD */
         int nobyte = W.refuse_read > 1 ? io_no_value(W.refuse_read) : w_noread_value;
+        if (w_force_refuse) { L.reads_refused++; if (W.scribble) *ch = '\n'; return nobyte; }
         if (w_feed) {
                 if (w_feed_pos >= w_feed_n) { L.reads_refused++; if (W.scribble) *ch = 'A'; return nobyte; }
                 uint8_t b = w_feed[w_feed_pos++];
@@ -513,6 +517,7 @@ static int io_write(char ch)
         lock_required("io write");
         L.writes_attempted++;
         /* refuse_write: 1 = refusals return 0; 2.. = another value of io_no_value (cat.h: only 1 means written) */
+        if (w_force_refuse) { L.writes_refused++; return io_no_value(W.refuse_write); }
         if (W.refuse_write && mcx_choose(2) == 1) { L.writes_refused++; return io_no_value(W.refuse_write); }
         L.writes_accepted++;
         if (L.out_n < (int)sizeof L.out) L.out[L.out_n++] = (uint8_t)ch;
@@ -524,7 +529,12 @@ static int io_write(char ch)
 static int mx_lock(void)
 {
         L.locks++;
-        if (I.depth != 0) VIOL(P_C16, "C16: lock() called while already locked (depth %d)", I.depth);
+        if (I.depth != 0) {
+                /* the user's mutex is not re-entrant: a nested acquisition fails (and is a C16 violation in itself) */
+                VIOL(P_C16, "C16: lock() called while already locked (depth %d)", I.depth);
+                L.nested_lock_refused++;
+                return cb_fail_value(W.mutex_faults);
+        }
         if (I.api_hash_valid && w_lib_hash() != I.api_hash)
                 VIOL(P_C16, "C16: parser state changed between API entry and lock()");
         if (W.mutex_faults && mcx_choose(2) == 1) { L.lock_failed = 1; WS.lock_faults++; return cb_fail_value(W.mutex_faults); }   /* cat.h: 0 = locked, anything else = cannot lock */
@@ -584,7 +594,11 @@ static void handler_side_effects(int evt)
 {
         if (W.use_mutex) {
                 /* the two query functions documented as lock-free may be called from inside callbacks */
-                if (W.nev > 0) (void)cat_is_unsolicited_event_buffered(I.obj, &I.cmds[W.ev[0].cmd], CAT_CMD_TYPE_NONE);
+                if (W.nev > 0) {
+                        cat_status qs = cat_is_unsolicited_event_buffered(I.obj, &I.cmds[W.ev[0].cmd], CAT_CMD_TYPE_NONE);
+                        if (qs != CAT_STATUS_OK && qs != CAT_STATUS_BUSY)
+                                VIOL(P_C13 | P_C16, "C13: cat_is_unsolicited_event_buffered answered %d when called from inside a handler (it is documented as not using the mutex)", (int)qs);
+                }
                 (void)cat_get_processed_command(I.obj, CAT_FSM_TYPE_UNSOLICITED);
                 return;
         }
@@ -659,6 +673,8 @@ static cat_return_state h_rt(int kind, const struct cat_command *cmd, uint8_t *d
                 data[1] = (uint8_t)('0' + (inv % 10));
                 data[2] = 0;
                 *data_size = 2;
+                /* token mode 2: every other invocation hands back an empty response (an empty line is still a line) */
+                if (W.tok_mode == 2 && (inv & 1)) { data[0] = 0; *data_size = 0; }
         }
         if (ok) ref_handler_returned(evt, kind, code, data, *data_size);
         return (cat_return_state)code;
@@ -879,6 +895,7 @@ static int enum_actions(struct act *out)
                 for (int c = 0; c < I.nreg; c++) out[n++] = (struct act){A_FLAG_CMD, (uint8_t)c};
                 for (int g = 0; g < W.ngrp; g++) out[n++] = (struct act){A_FLAG_GRP, (uint8_t)g};
         }
+        if (W.act_reinit && I.S->reinit_left > 0) out[n++] = (struct act){A_REINIT, 0};
         return n;
 }
 
@@ -965,6 +982,34 @@ static void busy_hold_probe(void)
         mon_hold_answer(h);
 }
 
+/* Unbounded refusal runs are covered by state matching as long as a call that met only refusals leaves the parser where it
+ * was.  Where such a call does change parser state (legitimately: the other machine made internal progress; or not: a
+ * retry counter, a timeout), the all-refusing continuation is followed from there as a side exploration, with every
+ * monitor active, until the state stops changing; the explorer then continues from the state before the probe. */
+static void refusal_run_probe(void)
+{
+        static uint8_t *snap; static size_t snap_n;
+        size_t need = mcx_state_size();
+        if (snap_n < need) { snap = realloc(snap, need); snap_n = need; if (!snap) mcx_fatal("oom probe"); }
+        mcx_save(snap);
+        struct calllog keepL = L;
+        int keep_out = I.out_n, keep_raw = I.raw_n, keep_ret = I.last_ret;
+        WS.refusal_probes++;
+        w_force_refuse = 1;
+        uint64_t h = w_lib_hash();
+        for (int k = 0; k < 70000 && !mcx_violated(); k++) {
+                do_service();
+                WS.refusal_probe_calls++;
+                uint64_t h2 = w_lib_hash();
+                if (h2 == h && !L.handler_calls && !L.var_calls) break;
+                h = h2;
+        }
+        w_force_refuse = 0;
+        if (mcx_violated()) return;
+        mcx_restore(snap);
+        L = keepL; I.out_n = keep_out; I.raw_n = keep_raw; I.last_ret = keep_ret;
+}
+
 static int m_step(int action)
 {
         struct act a[64];
@@ -973,8 +1018,14 @@ static int m_step(int action)
         struct act x = a[action];
         WS.api_calls[x.kind]++;
         switch (x.kind) {
-        case A_SERVICE:
-                return do_service();
+        case A_SERVICE: {
+                uint64_t h0 = W.refusal_probe ? w_lib_hash() : 0;
+                int r = do_service();
+                if (W.refusal_probe && !mcx_violated() && !L.reads_delivered && !L.writes_accepted && !L.handler_calls && !L.var_calls && !L.lock_failed
+                    && (L.reads_refused || L.writes_refused) && w_lib_hash() != h0)
+                        refusal_run_probe();
+                return r;
+        }
         case A_TRIGGER:
                 I.S->last_svc_ok = 0;
                 do_trigger(x.arg, 0);
@@ -1036,6 +1087,20 @@ static int m_step(int action)
                 if (I.S->flag_left) I.S->flag_left--;
                 WS.flag_flips++;
                 break;
+        case A_REINIT:
+                /* cat_init on a used object: everything in flight (partial line, owed responses, queued events, a hold) is
+                 * dropped; the bytes that follow are a new line for parser and reference alike; variable values stay */
+                cat_init(I.obj, I.desc, &io_if, W.use_mutex ? &mx_if : NULL);
+                mon_init();
+                /* a WRITE in flight is cut between two variables: what has been stored so far stays, the rest is never stored */
+                for (int c = 0; c < W.ncmd; c++)
+                        for (int v = 0; v < W.cmd[c].nvar; v++)
+                                memcpy(w_shadow(c, v), I.vardata[I.varoff[c] + v], W.cmd[c].var[v].size);
+                memset(I.line, 0, (size_t)W.line_max);
+                I.S->reinit_left--;
+                I.S->last_svc_ok = 0;
+                WS.reinits++;
+                break;
         default:
                 mcx_fatal("bad action kind");
         }
@@ -1049,7 +1114,7 @@ static void m_describe(int action, char *out, size_t n)
         int k = enum_actions(a);
         if (action >= k) { snprintf(out, n, "?"); return; }
         static const char *names[] = {"cat_service", "trigger", "hold_exit(OK)", "hold_exit(ERROR)", "is_busy", "is_hold", "is_buffer_full",
-                                      "is_event_buffered", "is_event_buffered(any type)", "get_processed_command(UNSOLICITED)", "toggle cmd.disable", "toggle group.disable"};
+                                      "is_event_buffered", "is_event_buffered(any type)", "get_processed_command(UNSOLICITED)", "toggle cmd.disable", "toggle group.disable", "cat_init (again)"};
         snprintf(out, n, "%s %d", names[a[action].kind], a[action].arg);
 }
 
